@@ -697,6 +697,10 @@ def main(tier):
         rep.violation({"what": "interpreter and generated Python class disagree on a hand-written program of the "
                                "floating-point / built-in stream (harness/c01_extras.py)", "extra": name, "oracle": d})
 
+    # call argument binding (coq/model/CallBind.v, theorems C01_bind_*): correspondence and oracles
+    from harness import c01_bind
+    c01_bind.check(rep)
+
     mism, n_eval, errors = [], 0, []
     if os.path.exists(os.path.join(common.COQ, "model", "StepperCheck.vo")) and \
             os.path.exists(os.path.join(common.COQ, "gen", "GenLang.vo")):
@@ -738,6 +742,9 @@ def main(tier):
 
 def replay(path):
     r = json.load(open(path))
+    if "bind_case" in r or "bind_program" in r or "bind_builtin" in r:
+        from harness import c01_bind
+        return c01_bind.replay(r)
     if "extra" in r:
         from harness import c01_extras
         ex = [e for e in c01_extras.extras() if e[0] == r["extra"]]
